@@ -81,6 +81,48 @@ type c13bulkIn struct {
 	N        int    `json:"entries"`
 	Layout   string `json:"layout"` // one-file | inline+file | two-files | file+inline
 	Delivery string `json:"delivery"`
+	// Wide: one more rule, a prefix that spans many first octets, next to the N small ones
+	Wide string `json:"wide,omitempty"`
+}
+
+// prefixes shorter than /8 (plain, IPv4-mapped spelling, an IPv6 prefix covering part of the mapped range)
+var c13bulkWide = []string{"224.0.0.0/4", "192.0.0.0/3", "128.0.0.0/1", "0.0.0.0/0", "::ffff:96.0.0.0/99", "::ffff:0:0/97", "::/80", "2400::/6"}
+
+// c13wideProbes: the first and last address of p and of every /8 (IPv4) inside
+// it, plain and IPv4-mapped; for IPv6 prefixes the first and last address.
+func c13wideProbes(p netip.Prefix) []netip.Addr {
+	p = p.Masked()
+	var out []netip.Addr
+	last := func(q netip.Prefix) netip.Addr {
+		b := q.Addr().As16()
+		bits := q.Bits()
+		if q.Addr().Is4() {
+			bits += 96
+		}
+		for i := bits; i < 128; i++ {
+			b[i/8] |= 1 << (7 - uint(i%8))
+		}
+		a := netip.AddrFrom16(b)
+		if q.Addr().Is4() {
+			a = a.Unmap()
+		}
+		return a
+	}
+	out = append(out, p.Addr(), last(p))
+	v4 := p
+	if p.Addr().Is4In6() && p.Bits() >= 96 {
+		v4 = netip.PrefixFrom(p.Addr().Unmap(), p.Bits()-96)
+	}
+	if v4.Addr().Is4() && v4.Bits() < 8 {
+		for o := 0; o < 256; o++ {
+			a := netip.AddrFrom4([4]byte{byte(o), 0, 0, 0})
+			if v4.Contains(a) {
+				z := netip.AddrFrom4([4]byte{byte(o), 255, 255, 255})
+				out = append(out, a, z, netip.AddrFrom16(a.As16()), netip.AddrFrom16(z.As16()))
+			}
+		}
+	}
+	return out
 }
 
 var c13bulkLayouts = []string{"one-file", "inline+file", "two-files", "file+inline"}
@@ -131,8 +173,46 @@ func c13bulkRun(in c13bulkIn) (evals int64, sig, why string) {
 	if err != nil {
 		return 1, "bulk/load-error", fmt.Sprintf("loading %d well-formed entries (%s, %s) failed: %v", in.N, in.Layout, in.Delivery, err)
 	}
+	var wide netip.Prefix
+	if in.Wide != "" {
+		wide = netip.MustParsePrefix(in.Wide)
+		if in.Layout == "one-file" || in.Layout == "two-files" {
+			err = LoadFromReader(l, rd(in.Wide+"\n"))
+		} else {
+			l.Append(wide)
+		}
+		if err != nil {
+			return 1, "bulk/load-error", fmt.Sprintf("loading %q failed: %v", in.Wide, err)
+		}
+	}
+	covered := func(a netip.Addr) bool {
+		if !wide.IsValid() {
+			return false
+		}
+		if wide.Contains(a) {
+			return true
+		}
+		if a.Is4() {
+			return wide.Contains(netip.AddrFrom16(a.As16()))
+		}
+		if a.Is4In6() {
+			return wide.Contains(a.Unmap())
+		}
+		return false
+	}
 	l.Sort()
 	missing, first := 0, ""
+	if wide.IsValid() {
+		for _, a := range c13wideProbes(wide) {
+			evals++
+			if !l.Contains(a) {
+				missing++
+				if first == "" {
+					first = fmt.Sprintf("rule %q does not cover %v", in.Wide, a)
+				}
+			}
+		}
+	}
 	for i := 0; i < in.N; i++ {
 		t, inside, outside := c13bulkEntry(i)
 		for _, a := range inside {
@@ -145,7 +225,7 @@ func c13bulkRun(in c13bulkIn) (evals int64, sig, why string) {
 			}
 		}
 		evals++
-		if l.Contains(outside) {
+		if l.Contains(outside) && !covered(outside) {
 			return evals, "bulk/false-positive", fmt.Sprintf("list of %d entries (%s, %s): %v is reported as contained, no entry covers it (it lies just above entry %d %q)", in.N, in.Layout, in.Delivery, outside, i, t)
 		}
 	}
@@ -190,7 +270,7 @@ func TestVerifC13Bulk(t *testing.T) {
 				if how == "one-byte-reads" && n > 5000 {
 					continue
 				}
-				in := c13bulkIn{n, lay, how}
+				in := c13bulkIn{N: n, Layout: lay, Delivery: how}
 				ev, sig, why := c13bulkRun(in)
 				res.Evaluations += ev
 				res.Transitions += ev
@@ -205,6 +285,28 @@ func TestVerifC13Bulk(t *testing.T) {
 				if sig != "" {
 					res.ViolateInput(sig, why, in)
 				}
+			}
+		}
+	}
+	// one more rule: a prefix shorter than /8 next to the N small ones
+	res.Bounds["bulk.wide"] = c13bulkWide
+	for _, n := range sizes {
+		if n > 5000 {
+			continue
+		}
+		for wi, w := range c13bulkWide {
+			idx++
+			if !e.Mine(idx) {
+				continue
+			}
+			in := c13bulkIn{N: n, Layout: c13bulkLayouts[(wi+n)%len(c13bulkLayouts)], Delivery: "whole", Wide: w}
+			ev, sig, why := c13bulkRun(in)
+			res.Evaluations += ev
+			res.Transitions += ev
+			res.States++
+			res.Outcome("bulk/wide/" + w)
+			if sig != "" {
+				res.ViolateInput(sig+"/wide", why+" (with the rule "+w+")", in)
 			}
 		}
 	}
